@@ -43,7 +43,8 @@ def builder_check(res, rt, rng, tier, lean_ok):
                 # the same kind of text written in several `write_str` calls (label, multi-line value, empty write, ...): the
                 # indentation adapter must not depend on how the text is chunked (the models see the text, not the chunks)
                 chunks = [rng.choice(TEXTS + ["notes: ", "k=", " ", "first\nsecond\nthird", "\n\n", "x\n"]) for _ in range(2 + rng.below(3))]
-                fields.append("m" + "~".join(C.hexs(c) if c else "-" for c in chunks)); model_ok = False
+                # since the call-by-call model (`dmTupleCode`, `paddedWrites`) the Lean side replays the chunks one by one
+                fields.append("m" + "~".join(C.hexs(c) if c else "-" for c in chunks))
             elif r == 8:
                 fields.append(f"i{rng.below(300)}"); model_ok = False
             else:
@@ -77,7 +78,60 @@ def builder_check(res, rt, rng, tier, lean_ok):
                 res.violation("dtup:" + f"{SPECS[si][0]}|{nm}|{fin}|{','.join(fs)}",
                               f"DebugTuple name={nm!r} fields={fs} {fin} under {SPECS[si][0]}: the crate writes {dm!r}, core writes {st!r}",
                               {"cmd": "dtup", "spec": SPECS[si][0], "name": nm, "fields": fs, "finish": fin, "crate": dm, "core": st})
-    return len(cases), len(mreq), corr_bad, n_known, n_pretty
+    nt, tbad, tknown = tree_check(res, rt, rng, tier, lean_ok, probes)
+    corr_bad += tbad
+    return len(cases) + nt, len(mreq) + (nt if lean_ok else 0), corr_bad, n_known + tknown, n_pretty
+
+
+def gen_tree(rng, depth):
+    """A value that is builder output all the way down: tuple nodes (the crate's DebugTuple vs core's), struct nodes
+    (core's DebugStruct on both sides), leaves that write literal text / several chunks / the options they see."""
+    r = rng.below(10)
+    if depth == 0 or r < 3:
+        k = rng.below(8)
+        if k < 4:
+            return "l" + C.hexs(rng.choice(TEXTS)), False
+        if k < 6:
+            chunks = [rng.choice(TEXTS + ["k=", "first\nsecond", "\n\n"]) for _ in range(2 + rng.below(2))]
+            return "m" + "~".join(C.hexs(c) if c else "-" for c in chunks), False
+        return "f", True
+    fin = rng.choice(["ex", "ex", "nx"])
+    name = rng.choice(["Foo", "", "Ünï", "V"])
+    kids = [gen_tree(rng, depth - 1) for _ in range(rng.below(4))]
+    sens = any(k[1] for k in kids)
+    if r < 7:
+        return "(T " + C.hexs(name) + " " + fin + "".join(" " + k[0] for k in kids) + ")", sens
+    name = name or "S"
+    return "(S " + C.hexs(name) + " " + fin + "".join(f" {C.hexs(rng.choice(['a', 'fn', 'x1']))} {k[0]}" for k in kids) + ")", sens
+
+
+def tree_check(res, rt, rng, tier, lean_ok, probes):
+    """Nesting (theorems nested_eq_std / nested_eq_std_all_options): the real builders on nested values vs the Lean tree model
+    (both sides), and the crate's side vs core's wherever the theorems say they agree."""
+    n = 3000 if tier == "quick" else 60000
+    cases = []
+    for _ in range(n):
+        tree, sens = gen_tree(rng, 1 + rng.below(4))
+        cases.append((rng.below(len(SPECS)), tree, sens))
+    impl = C.drive(rt, [f"dval {si} {t}" for si, t, _ in cases])
+    model = C.drive_lean([f"dv {SPECS[si][1]} {0 if SPECS[si][2] else si} {probes[si]} {probes[1]} {t}" for si, t, _ in cases]) if lean_ok else [None] * n
+    bad, known = [], 0
+    for (si, t, sens), ia, ma in zip(cases, impl, model):
+        if ma is not None and ia != ma:
+            bad.append({"case": f"dval {SPECS[si][0]} {t}", "impl": ia, "model": ma})
+        if ia == "bad-op" or ia == "panic":
+            res.violation("dval:" + t, f"nested value {t}: the harness answered {ia}", {"cmd": "dval", "spec": SPECS[si][0], "tree": t})
+            continue
+        dm, st = [C.unhex(x.split("=")[1]) for x in ia.split()]
+        if dm != st:
+            # the theorems promise equality for default options, and for any options when no leaf looks at them
+            if SPECS[si][1] and not SPECS[si][2] and sens:
+                known += 1
+                res.violation("pretty-with-options", "", {"case": ia})
+            else:
+                res.violation("dval:" + f"{SPECS[si][0]}|{t}", f"nested value {t} under {SPECS[si][0]}: the crate's builders write {dm!r}, core's write {st!r}",
+                              {"cmd": "dval", "spec": SPECS[si][0], "tree": t, "crate": dm, "core": st})
+    return n, bad, known
 
 
 PRELUDE = r'''
